@@ -67,10 +67,39 @@ def design_mc(ctx):
 
 # ================================================================================================
 # scenarios
+def _assign_cases(rng, q):
+    import itertools
+    cases = []
+    for p in (3, 4):
+        choices = []
+        for k in range(2, p + 1):
+            for aff in itertools.combinations(range(p), k):
+                for best in itertools.permutations(aff):
+                    choices.append({"aff": list(aff), "best": list(best)})
+        for a, b in itertools.product(choices, choices):          # every history of two breakpoints
+            cases.append({"ploidy": p, "bps": [a, b]})
+        for _ in range(1500 if q else 20000):                     # sampled histories of 3-5 breakpoints
+            cases.append({"ploidy": p, "bps": [rng.choice(choices) for _ in range(rng.randint(3, 5))]})
+    for _ in range(300 if q else 5000):
+        p = rng.choice([5, 6])
+        bps = []
+        for _ in range(rng.randint(2, 5)):
+            aff = sorted(rng.sample(range(p), rng.randint(2, p)))
+            best = list(aff)
+            rng.shuffle(best)
+            bps.append({"aff": aff, "best": best})
+        cases.append({"ploidy": p, "bps": bps})
+    return cases
+
+
 def scenarios(ctx):
     q = ctx.quick
     rng = ctx.rng
     scs = []
+    ac = _assign_cases(rng, q)
+    ctx.notes["assign_histories"] = len(ac)
+    for i in range(0, len(ac), 400):
+        scs.append({"kind": "assign", "cases": ac[i:i + 400]})
     # ---- (1) force_genotypes cases emitted by TLC -------------------------------------------------
     cfg = tlc.write_cfg(os.path.join(ctx.workdir, "force_emit.cfg"), spec="Spec",
                         consts={"MaxPloidy": 4 if q else 5, "NumAlleles": 3, "FiniteLikelihood": "TRUE"}, invariants=["Emit"])
@@ -544,8 +573,34 @@ def _drive_poly(sc):
         shutil.rmtree(d, ignore_errors=True)
 
 
+def _drive_assign(sc):
+    """get_optimal_assignments (local optima, no pre-phasing) on synthetic breakpoint histories"""
+    from whatshap.polyphase.reorder import get_optimal_assignments
+    from types import SimpleNamespace
+    import itertools
+    evs = []
+    for case in sc["cases"]:
+        p = case["ploidy"]
+        bps, lllh = [], []
+        for k, bp in enumerate(case["bps"]):
+            aff = bp["aff"]
+            bps.append(SimpleNamespace(position=10 * (k + 1), haplotypes=list(aff)))
+            d = {}
+            for perm in itertools.permutations(aff):
+                d[tuple(perm)] = 0.0 if list(perm) == bp["best"] else -5.0 - 0.01 * len(d)
+            lllh.append(d)
+        try:
+            asg = get_optimal_assignments(bps, lllh, p, None)
+            evs.append({"ev": "Assign", "ploidy": p, "bps": case["bps"], "asg": [[int(x) for x in a] for a in asg], "exc": ""})
+        except Exception as e:
+            evs.append({"ev": "Assign", "ploidy": p, "bps": case["bps"], "asg": [], "exc": type(e).__name__})
+    return evs
+
+
 def drive(sc):
     k = sc["kind"]
+    if k == "assign":
+        return _drive_assign(sc)
     if k == "force":
         return _drive_force(sc)
     if k == "cuts":
@@ -568,6 +623,8 @@ def _phased_processed(e):
 
 def nontrivial(sc, events):
     k = sc["kind"]
+    if k == "assign":
+        return any(e.get("ev") == "Assign" and len(e["bps"]) >= 2 and e["asg"] and e["asg"][-1] != sorted(e["asg"][-1]) for e in events)
     if k == "force":
         return any(e.get("ev") == "Force" and -1 not in e["col"] and sorted(e["col"]) != sorted(e["gt"]) for e in events)
     if k == "cuts":
@@ -578,6 +635,8 @@ def nontrivial(sc, events):
 
 def signature(sc, events, clause):
     k = sc["kind"]
+    if k == "assign":
+        return "get_optimal_assignments replay (breakpoint histories)"
     if k == "force":
         if sc["style"] == "deep":
             return "force_genotypes replay style=deep (>=300 reads per cluster: every permutation's likelihood underflows to -inf)"
